@@ -95,16 +95,22 @@ PROPS = {
         "oracle": "pairwise distinctness over the whole run + race detector",
     },
     "C15": {
+        "level_text": 'the behaviour clause (engine identical on original and re-parsed model) is decided by seeded simulation: the real engine runs on the re-parsed model under generated fault plans and goroutine schedules and is judged by a reference model derived from the original diagram; the structural clauses (equivalent model, serialising alters nothing, ids retrievable) are deterministic comparisons on the same generated documents and on every bundled file (DESIGN.md section 6)',
+        "level_note": 'sampling, not proof; the structural comparison ignores whitespace-only text and treats absent and empty payloads alike; scenario families with open findings (C10, C12 loops) are not used as carriers',
         "level": "exploration", "quick_s": 35, "thorough_s": 900, "thorough_seeds": 4,
         "rule": "generated definitions of the C01 (all gateway kinds, defaults, expr and XPath conditions, data-dependent conditions, sub-processes), C03, C04 (data objects), C05, C06, C08 (olive properties/results/data outputs, task definitions), C11, C13 (timer definitions), C14 (multiple event definitions) and C18 (collaborations, message flows, several processes) families are parsed, serialised with encoding/xml and parsed again; the engine then runs on the RE-PARSED model under the family's fault plan and a tape-driven goroutine schedule and the recorded history is checked by the family's oracle, which is derived from the ORIGINAL graph (behaviour clause); before each run the same document is compared structurally (original vs re-parsed, serialised model vs an untouched twin, every id retrievable); once per invocation every bundled .bpmn file goes through the structural comparison; distinct = schedule hash; non-trivial = as in the family",
         "oracle": "reference model of the original diagram over the history of the re-parsed one + field-by-field model comparison",
     },
     "C19": {
+        "level_text": "uniqueness of builder ids under the simulator's clock (the builders seed their id source from the clock) and executability of the builder output (each activity requested once, in insertion order, completion) are decided by seeded simulation; referential integrity, layout geometry and round-trip survival are deterministic checks on the same builder outputs (DESIGN.md section 6)",
+        "level_note": "sampling, not proof; math/rand's global source is re-seeded per run for replayability; a sub-process added without content is a known finding",
         "level": "exploration", "quick_s": 30, "thorough_s": 600, "thorough_seeds": 4,
         "rule": "1..3 processes per definitions, each built by 0..12 AddActivity calls over all ten activity types with and without preset ids, AutoLayout with the documented defaults or a configuration from the grid origins {0, 96, -50, 1e6} x gaps {0, 50, 100, 120, 180, 300}; the builders read the simulator's clock (ids are drawn from a generator seeded with time.Now() at every call: the clock stands still or advances 1..3 simulated ms between calls); the builder output or its re-parsed serialisation then runs in the engine under a tape-driven goroutine schedule and answer plan and the history is checked against the token game of the chain that was asked for (each activity requested once, in insertion order, completion); before the run the output is checked for unique ids, referential integrity of every sequence flow, start/end degree, one shape per node and one edge per flow with finite coordinates, edges on their shapes, no overlap when the gaps are at least the node sizes, and survival of the XML round trip; distinct = schedule hash; non-trivial = at least one activity and a context switch",
         "oracle": "token game of the requested chain over the recorded history + structural and geometric checks of the builder output",
     },
     "C16": {
+        "level_text": 'isolation between concurrently running instances and absence of panics in engine goroutines are decided by seeded simulation of 1..3 instances with generated values under tape-driven interleavings; the canonical-form reference the read-back values are compared with is sequential code (DESIGN.md section 6)',
+        "level_note": 'sampling, not proof; values outside the statement (unsigned > MaxInt64, NaN/Inf, []byte) are not generated; for nil and for declared types that do not match the supplied value only the absence of a panic is required',
         "level": "exploration", "quick_s": 30, "thorough_s": 600, "thorough_seeds": 4,
         "rule": "1..3 instances of one process (service task writing results and data outputs -> service task reading them through typed properties, headers with $references and data inputs) run at the same time in one simulation, each driven by its own client goroutine; instance variables, task results and data outputs are drawn from 24 kinds of Go values (every integer width signed and unsigned with boundary values, float32/64, unicode / empty / quoted strings, booleans, slices, arrays, nested maps, structs, pointers, nil, typed nil pointers, deep nesting), the same kinds but different contents per instance; properties are declared with matching and with non-matching item types, by name and by references to present and absent paths; tape-driven interleaving of all instances' goroutines; oracle: what instance i reads (Locator().CloneVariables() after start and at the end, TaskTrace.GetProperties/GetDataObjects/GetHeaders of the next task) is the canonical form of what instance i wrote, never another instance's value, and no simulated goroutine panics; distinct = schedule hash; non-trivial = a context switch",
         "oracle": "canonical-form reference per instance + panic capture in every simulated goroutine",
